@@ -65,7 +65,7 @@ def build(tier: str, props=PROPS, pid="C06") -> CheckSpec:
             cubes.append(Cube(f"attrs {'/'.join(map(str, T.ATTR_SHAPES[sh]))} pass#{k} {methods[k]}", h_attr,
                               {"sid": str, "scls": str, "skey": int, "sval": str, "hidx": int},
                               {"shape": sh, "pass_index": k, "props": props, "keys": T.PASS_STYLE_KEYS[k], "lengths": T.PASS_USES_LENGTH[k]},
-                              timeout=(200 if T.PASS_USES_LENGTH[k] else 60) if q else 900, per_path_timeout=20, group="attrs:" + methods[k]))
+                              allow_empty=True, timeout=((200 if T.PASS_USES_LENGTH[k] else 60) if "C06" in props else 30) if q else 900, per_path_timeout=20, group="attrs:" + methods[k]))
     cubes.append(Cube("twin: passes restructure a document", twin_pass_changes_tree, {"l1": int, "l2": int}, {"c1": T.cidx("table2x2"), "c2": 0},
                       timeout=120, role="twin"))
     return CheckSpec(
